@@ -249,7 +249,8 @@ pub fn oracles(cases: &[EnumCase], rep: &mut Report) {
             seen += 1;
             let want = refmap.get(&(p[0].to_string(), p[1].to_string()));
             if want.map(|w| w.to_string()) != Some(p[2].to_string()) {
-                rep.oracle_fail(&all_case, what, json!({"enum": p[0], "variant": p[1], "rustc": want, "binding": p[2]}));
+                let one = cases.iter().find(|c| c.name == p[0]).map(|c| c.sexp()).unwrap_or_else(|| all_case.clone());
+                rep.oracle_fail(&one, what, json!({"enum": p[0], "variant": p[1], "rustc": want, "binding": p[2]}));
             }
         }
         if seen != refmap.len() {
@@ -331,9 +332,9 @@ pub fn oracles(cases: &[EnumCase], rep: &mut Report) {
         }
         for c in cases {
             for (v, _) in &c.vars {
-                prog += &format!("console.log('{0} {1} ' + {0}.{1}.ffiValue);\n", c.name, v);
+                prog += &format!("try {{ console.log('{0} {1} ' + {0}.{1}.ffiValue); }} catch (e) {{ console.log('{0} {1} threw:' + String(e).replace(/\\s+/g, '_')); }}\n", c.name, v);
                 prog += &format!(
-                    "{{ const o = new {0}(diplomatRuntime.internalConstructor, {0}.{1}.ffiValue); if (o !== {0}.{1} || o.value !== '{1}' || {0}.fromValue('{1}') !== {0}.{1}) console.log('{0} {1} fromffi-mismatch ' + (o && o.value)); }}\n",
+                    "try {{ const o = new {0}(diplomatRuntime.internalConstructor, {0}.{1}.ffiValue); if (o !== {0}.{1} || o.value !== '{1}' || {0}.fromValue('{1}') !== {0}.{1}) console.log('{0} {1} fromffi-mismatch ' + (o && o.value)); }} catch (e) {{ console.log('{0} {1} fromffi-mismatch threw'); }}\n",
                     c.name, v
                 );
             }
